@@ -2295,6 +2295,8 @@ def extend(
                 multi_qubit_identifier_mappings.append(id_mapping)
         except TypeError:
             # qubit is not iterable, ie single qubit
+            if int(qubit) != qubit:
+                raise TypeError(f'Expected qubit indices to be integers, not {qubit}')
             active_qubits_list.append(int(qubit))
             single_qubit_idx.append(int(qubit))
             single_qubit_pulses.append(pulse)
